@@ -528,6 +528,16 @@ def viewAfter {β} (R : Repairs) (g : G) (h : List (Op β)) (op : Op β) : View 
   let r := step R g s op
   view r.1 op r.2
 
+/-- `Grid.antimeridian_face_indices` (lazy property, `_populate_antimeridian_face_indices`): computed from the
+    grid's OWN shells — no projection, hence `p = 0` — and memoised in its own cell.  It reads none of the
+    exporters' cache cells or side tables: the state is an argument only to say so. -/
+def amGetter {β} (g : G) (_s : St β) : List Nat := amOf g 0
+
+/-- what a getter that reused the exporters' side table would return (regression witness only): the table
+    left by the latest GeoDataFrame conversion, computed on longitudes shifted by that conversion's projection -/
+def amGetterReusing {β} (g : G) (s : St β) : List Nat :=
+  if s.heap.length = 0 then amOf g 0 else s.gdfAm
+
 /-- kind of a conversion for the specification -/
 def Op.kind {β} : Op β → Nat
   | .gridGdf .. => 0
